@@ -620,7 +620,17 @@ func (g *generator) declareDisjunction(v cue.Value, hints ast.JenniesHints, defa
 
 	// not a disjunction anymore
 	if len(disjunctionBranchesWithPossibleDefault) != len(disjunctionBranches) && len(disjunctionBranches) == 1 {
-		return g.declareNode(disjunctionBranches[0])
+		def, err := g.declareNode(disjunctionBranches[0])
+		if err != nil {
+			return ast.Type{}, err
+		}
+
+		// what is left is the type the default was declared for
+		if def.Default == nil {
+			def.Default = defaultValue
+		}
+
+		return def, nil
 	}
 
 	// We must be looking at a disjunction then (2)
@@ -643,7 +653,9 @@ func (g *generator) subsumedByAnotherBranch(index int, branches []cue.Value) boo
 			continue
 		}
 
-		if other.Subsume(branches[index]) == nil {
+		// the default is a value, not a type: a concrete struct is one of the values of a map
+		// (`{[string]: string} | *{env: "prod"}`), which only shows on final values
+		if other.Subsume(branches[index], cue.Final()) == nil {
 			return true
 		}
 	}
